@@ -1,11 +1,13 @@
 use crate::core::Property;
 
 pub mod c02;
+pub mod c03;
 pub mod c18;
 
 pub fn property(id: &str) -> Option<Property> {
     match id {
         "C02" => Some(c02::property()),
+        "C03" => Some(c03::property()),
         "C18" => Some(c18::property()),
         _ => None,
     }
